@@ -178,6 +178,12 @@ class LV:
     __rmul__ = __mul__
 
     def __getitem__(self, key):
+        if isinstance(key, KMask):
+            # boolean-mask selection: which elements are kept is the mask's business, which array they come from is ours
+            self.obligations.append(('boolean mask has the rank of the array', z3.BoolVal(len(key.shape) == self.ndim)))
+            for d in range(min(len(key.shape), self.ndim)):
+                self.obligations.append(('boolean mask extent on axis %d' % d, I(key.shape[d]) == I(self.shape[d])))
+            return KExpr('masked', [self, key])
         if not isinstance(key, tuple):
             key = (key,)
         # expand Ellipsis
@@ -299,6 +305,13 @@ class Region:
     def __len__(self):
         unsupported('len() of a region')
         return 0
+
+
+class KMask:
+    """An opaque boolean array of symbolic shape (a covering mask)."""
+
+    def __init__(self, shape, name='mask'):
+        self.shape, self.name = tuple(shape), name
 
 
 class KExpr:
